@@ -111,7 +111,9 @@ TMergeNone ==
 TReopen == pend = {} /\ UNCHANGED pend /\ IsEv("Reopen") /\ ev.err = "" /\ Reopen(ev.r, ev.loaders) /\ StateMatches(ev) /\ UNCHANGED digests
 TDeleteClocks == pend = {} /\ UNCHANGED pend /\ IsEv("DeleteClocks") /\ DeleteClocks(ev.r, ev.b) /\ StateMatches(ev) /\ UNCHANGED digests
 
-TraceNext == TFetchRefused \/ TMergeBegin \/ TMergeEnd \/ Reset \/ TNewBug \/ TEdit \/ TRead \/ TPush \/ TFetch \/ TMerge \/ TMergeNone \/ TReopen \/ TDeleteClocks
+TClockLeap == pend = {} /\ UNCHANGED pend /\ IsEv("ClockLeap") /\ ClockLeap(ev.r) /\ StateMatches(ev) /\ UNCHANGED digests
+
+TraceNext == TClockLeap \/ TFetchRefused \/ TMergeBegin \/ TMergeEnd \/ Reset \/ TNewBug \/ TEdit \/ TRead \/ TPush \/ TFetch \/ TMerge \/ TMergeNone \/ TReopen \/ TDeleteClocks
 
 TraceSpec == TraceInit /\ [][TraceNext]_tvars
 
